@@ -206,6 +206,28 @@ impl<'tcx> Cx<'tcx> {
             out.push(']');
             out.push_str(",\"ty\":");
             esc(&self.ty(pty.ty), &mut out);
+            // owners: for every field projection the ADT (def path) that owns the field
+            out.push_str(",\"o\":[");
+            let mut pty2 = rustc_middle::mir::PlaceTy::from_ty(body.local_decls[p.local].ty);
+            let mut first = true;
+            for elem in p.projection.iter() {
+                if !first {
+                    out.push(',');
+                }
+                first = false;
+                let o = match elem {
+                    PlaceElem::Field(..) => match pty2.ty.kind() {
+                        ty::Adt(adt, _) => self.path(adt.did()),
+                        ty::Closure(..) => "<closure>".to_string(),
+                        ty::Tuple(..) => "<tuple>".to_string(),
+                        _ => String::new(),
+                    },
+                    _ => String::new(),
+                };
+                esc(&o, &mut out);
+                pty2 = pty2.projection_ty(self.tcx, elem);
+            }
+            out.push(']');
         }
         out.push('}');
         out
